@@ -107,6 +107,25 @@ def retarget_takes_effect(ctx):
     return []
 
 
+def idle_is_zero_outside_eom(ctx):
+    """'zero elsewhere': a delay on a channel that is not in EOM mode (no block open - whatever blocks were opened and closed before, also a
+    block of length zero) appends idle time without amplitude or detuning."""
+    op = ctx.op
+    if op[0] != "delay" or ctx.exc is not None or op[2] not in ctx.pre.channels:
+        return []
+    pre, post = ctx.pre.channels[op[2]], ctx.post.channels[op[2]]
+    if pre.eom_blocks and pre.eom_blocks[-1][4] is None:
+        return []  # an open block: idle time sits at its off-detuning
+    ctx.act["delays_outside_eom_checked"] += 1
+    if pre.eom_blocks:
+        ctx.act["delays_after_a_closed_eom_block"] += 1
+    for s_ in post.slots[len(pre.slots):]:
+        if s_.kind == "pulse" and (np.abs(s_.pulse.amp).max() > 0 or np.abs(s_.pulse.det).max() > 0):
+            return [("C06:idle-time-outside-eom-mode-carries-a-drive", f"{op[2]}: delay({op[1]}) appended {s_.brief()} with detuning {float(s_.pulse.det[0]):.4g} "
+                     f"(EOM blocks {[(b[3], b[4]) for b in pre.eom_blocks]}, none open)")]
+    return []
+
+
 def render(ctx):
     if ctx.exc is not None or not ctx.post.flags["building"]:
         return []
@@ -225,7 +244,7 @@ def render(ctx):
     return out
 
 
-MONITORS = [render, retarget_takes_effect]
+MONITORS = [render, retarget_takes_effect, idle_is_zero_outside_eom]
 
 XYP = [("declare", "m", "mw_global")]
 XYS = [("slm", ["q0"]), ("declare", "m", "mw_global"), ("declare", "n", "mw_global")]
@@ -252,6 +271,10 @@ def plan(tier, seed):
          A.render(dmm="dmm_0", eom=False), 3),
         (corner("unit8", prefix=A.GR, qubits=3, qid_alias={"q0": "z", "q1": "a", "q2": "m"}, name="unit8-str-ids-out-of-order"),
          A.render(l="r"), 2),
+        # EOM mode (with a non-zero off-detuning) enabled and disabled on a still empty channel: a block of length zero at t = 0; the channel is
+        # out of EOM mode afterwards and idles at zero detuning
+        (corner("real", prefix=[("declare", "g", "rydberg_global"), ("declare", "l", "raman_local", "q0"), ("enable_eom", "g", 20.0, 0.0, -40.0, False),
+                                ("disable_eom", "g", False)], qubits=3, name="real-zero-length-eom-block-at-0"), A.render(), 2),
         # a spare Local channel declared FIRST, without an initial target and never targeted (no slot at all), next to used channels
         (corner("real", prefix=[("declare", "s", "rydberg_local")] + A.GL, qubits=3, name="real-spare-untargeted-channel-first"), A.render(), 2),
         (corner("unit8", prefix=[("declare", "g", "rydberg_global"), ("declare", "s", "raman_local"), ("declare", "r", "rydberg_local", "q0")], qubits=3,
